@@ -219,6 +219,18 @@ reg(
     "DESIGN.md 4.3 C12",
 )
 
+reg(
+    "C09",
+    "Every dart.schedule of a finite family - matmul tile loops in all 6 orders with every (outer, inner) bound pair per dimension and five element-width "
+    "vectors, conv-like halo accesses, elementwise 1-D / 2-D with row and transposed access, an operand dimension the schedule never indexes, operands with "
+    "a pre-existing TSL; gemmx and ALU templates; tiled true/false - goes through the real set-memory-layout. For every inserted snax.layout_cast the chosen "
+    "layout is evaluated on every index of the operand's box by the independent evaluator: injective, tile bounds cover exactly the shape, static; ops with "
+    "a pre-existing TSL operand are untouched.",
+    "Trusted: machines/layout.py. Schedules are constructed directly (not only those the scheduler would pick); 4-D conv schedules of the size in the upstream test are not enumerated.",
+    "explicit enumeration of a finite input domain, all index points against a reference evaluator",
+    "DESIGN.md 4.2 C09",
+)
+
 NOT_APPLICABLE = []
 
 ALL = [f"C{i:02d}" for i in range(1, 21)]
